@@ -62,7 +62,7 @@ theorem entity_table (root : Str) (sub : Str → Str) (row : Cells) (ds : Str)
 
 /-- non-vacuity: the "always create" row -/
 example : ∃ ps, getEntityDeclaration [("dataset".toList, "trees".toList), ("label".toList, "${a}".toList)] [] = .ok ps ∧
-    (instanceNode ps).attrs = [("dataset", "trees".toList), ("id", []), ("create", "1".toList)] := by
+    (instanceNode ps).attrs = [("create", "1".toList), ("dataset", "trees".toList), ("id", [])] := by
   refine ⟨_, rfl, ?_⟩
   decide
 
